@@ -14,11 +14,19 @@ go build -o $S/gpy.mut . || { echo "MUT BUILD FAIL"; rm -rf $S; exit 2; }
 T=$(go test -count=1 ./... 2>&1 | grep -v "^ok\|no test files" | head -5)
 if [ -n "$T" ]; then echo "TESTS: FAIL"; echo "$T"; else echo "TESTS: pass"; fi
 if [ -f "$D/demo.py" ]; then
-  cp "$D/demo.py" $S/demo_seed.py
-  (cd $S && timeout 60 ./gpy.base demo_seed.py >/tmp/seed_base.out 2>&1; echo "demo without change: exit=$? $(tail -1 /tmp/seed_base.out | cut -c1-80)")
-  (cd $S && timeout 60 ./gpy.mut demo_seed.py >/tmp/seed_mut.out 2>&1; echo "demo with change: exit=$? $(grep -m1 -i 'panic\|FAIL\|Error' /tmp/seed_mut.out | cut -c1-100)")
+  # the demo may import helper modules that sit next to it: copy the whole directory
+  mkdir -p $S/zz_seed_demo && cp -r "$D"/* $S/zz_seed_demo/
+  (cd $S && timeout 60 ./gpy.base zz_seed_demo/demo.py >/tmp/seed_base.out 2>&1; echo "demo without change: exit=$? $(tail -1 /tmp/seed_base.out | cut -c1-80)")
+  (cd $S && timeout 60 ./gpy.mut zz_seed_demo/demo.py >/tmp/seed_mut.out 2>&1; echo "demo with change: exit=$? $(grep -m1 -i 'panic\|FAIL\|Error' /tmp/seed_mut.out | cut -c1-100)")
 fi
-rm -f $S/gpy.base $S/gpy.mut $S/demo_seed.py
+if [ -f "$D/demo_test.go" ]; then
+  # a Go test for package repl: passes without the change, fails with it
+  cp "$D/demo_test.go" $S/repl/zz_demo_test.go
+  (cd $S && go test -count=1 -run TestDemo ./repl/ >/tmp/seed_mut.out 2>&1; echo "demo test with change: exit=$? $(grep -m1 -- '--- FAIL\|^ok\|FAIL' /tmp/seed_mut.out | cut -c1-100)")
+  (cd $S && patch -R -p1 -s < "$D/patch.diff" && go test -count=1 -run TestDemo ./repl/ >/tmp/seed_base.out 2>&1; echo "demo test without change: exit=$? $(grep -m1 -- '--- FAIL\|^ok\|FAIL' /tmp/seed_base.out | cut -c1-100)"; patch -p1 -s < "$D/patch.diff")
+  rm -f $S/repl/zz_demo_test.go
+fi
+rm -rf $S/gpy.base $S/gpy.mut $S/zz_seed_demo
 for P in "$@"; do
   OUT=$(/verif/bin/gvc -repo $S -verif /verif -noevidence check $P quick 2>&1)
   echo "check $P: exit=$? ; $(echo "$OUT" | grep -c '^VIOLATION') violation lines"
